@@ -22,8 +22,50 @@ def Damaged (store₀ store : Store) : Prop :=
 /-- the working log is sound with respect to the blobs as they were written: the latest entry and the INITIAL
     record credit a session only with lines it reported (C03's working-log invariant, `sound_of_inv2`). -/
 structure Sound (rep : Nat → Nat → Prop) (store₀ : Store) (wl : WLog) : Prop where
-  latest : ∀ e, wl.entries.getLast? = some e → ∀ c, store₀ e.ref = some c → EntrySound rep c e.attr
-  pending : ∀ p, wl.pending = some p → ∀ c, store₀ p.ref = some c → EntrySound rep c p.attr
+  latest : ∀ e, wl.entries.getLast? = some e → ∃ c, store₀ e.ref = some c ∧ EntrySound rep c e.attr
+  pending : ∀ p, wl.pending = some p → ∃ c, store₀ p.ref = some c ∧ EntrySound rep c p.attr
+
+/-- healing keeps `Damaged` -/
+theorem Damaged.heal {store₀ store : Store} (h : Damaged store₀ store) (r : Ref) (cur : List Nat) :
+    Damaged (heal store₀ r cur) (heal store r cur) := by
+  intro r' c hc
+  unfold Snapshot.heal at hc ⊢
+  by_cases hr : r' = r
+  · simp only [hr, if_true, Option.some.injEq] at hc ⊢
+    exact ⟨cur, rfl, by rw [hc]; exact List.prefix_refl _⟩
+  · simp only [hr, if_false] at hc ⊢
+    exact h r' c hc
+
+theorem Damaged.pendStore {store₀ store : Store} (h : Damaged store₀ store) (r : Ref) (cur : List Nat) :
+    Damaged (Snapshot.heal store₀ r cur) (Snapshot.pendStore store r cur) := by
+  intro r' c hc
+  unfold Snapshot.pendStore at hc
+  split at hc
+  · cases hc
+  · exact h.heal r cur r' c hc
+
+/-- … and `Sound`, blobs being content-addressed: the blob named `r`, if it was ever written, holds `cur` -/
+theorem Sound.heal {rep : Nat → Nat → Prop} {store₀ : Store} {wl : WLog} (h : Sound rep store₀ wl) (r : Ref) (cur : List Nat)
+    (hca : ∀ c, store₀ r = some c → c = cur) : Sound rep (heal store₀ r cur) wl := by
+  constructor
+  · intro e he
+    obtain ⟨c, hc, hs⟩ := h.latest e he
+    unfold Snapshot.heal
+    by_cases hr : e.ref = r
+    · simp only [hr, if_true]
+      rw [hr] at hc
+      exact ⟨cur, rfl, by rw [← hca c hc]; exact hs⟩
+    · simp only [hr, if_false]
+      exact ⟨c, hc, hs⟩
+  · intro p hp
+    obtain ⟨c, hc, hs⟩ := h.pending p hp
+    unfold Snapshot.heal
+    by_cases hr : p.ref = r
+    · simp only [hr, if_true]
+      rw [hr] at hc
+      exact ⟨cur, rfl, by rw [← hca c hc]; exact hs⟩
+    · simp only [hr, if_false]
+      exact ⟨c, hc, hs⟩
 
 /-! ### list facts -/
 
@@ -155,9 +197,9 @@ theorem mem_noteOf (head cur : List Nat) (eff : List Author) (i s : Nat) (h : (i
 
 /-- with "previous content empty" for a lost entry snapshot and "dropped" for a lost INITIAL snapshot, whatever
     author the commit-time attribution gives a line of the current file is sound for that very line. -/
-theorem effective_sound (rep : Nat → Nat → Prop) (store₀ store : Store) (hd : Damaged store₀ store)
+theorem effective_sound (rep : Nat → Nat → Prop) (store₀ se sp : Store) (hd : Damaged store₀ se) (hdp : Damaged store₀ sp)
     (wl : WLog) (hs : Sound rep store₀ wl) (cur : List Nat) :
-    EntrySound rep cur (effective ⟨.empty, .drop⟩ store wl cur) := by
+    EntrySound rep cur (effective ⟨.empty, .drop⟩ se sp wl cur) := by
   intro i y s hc he
   have carried : ∀ c attr, EntrySound rep c attr →
       (positional (checkpointAttr ⟨c, attr⟩ cur none) cur)[i]? = some (some s) → rep s y := by
@@ -173,10 +215,13 @@ theorem effective_sound (rep : Nat → Nat → Prop) (store₀ store : Store) (h
       | nil => rw [hw] at hlast; cases hlast
       | cons _ _ => rfl
     simp only [hlast, hne] at he
-    cases hst : store e.ref with
+    cases hst : se e.ref with
     | some c =>
       obtain ⟨c₀, h0, hp⟩ := hd _ _ hst
-      have hsound : EntrySound rep c e.attr := (hs.latest e hlast c₀ h0).of_prefix hp
+      have hsound : EntrySound rep c e.attr := by
+        obtain ⟨c', hc', hs'⟩ := hs.latest e hlast
+        rw [h0] at hc'; cases hc'
+        exact hs'.of_prefix hp
       simp only [hst] at he
       by_cases hcc : c = cur
       · subst hcc
@@ -201,10 +246,13 @@ theorem effective_sound (rep : Nat → Nat → Prop) (store₀ store : Store) (h
       simp [hp, pendingEffective] at he
       exact absurd he (positional_nil_none cur i s)
     | some p =>
-      cases hst : store p.ref with
+      cases hst : sp p.ref with
       | some c =>
-        obtain ⟨c₀, h0, hpre⟩ := hd _ _ hst
-        have hsound : EntrySound rep c p.attr := (hs.pending p hp c₀ h0).of_prefix hpre
+        obtain ⟨c₀, h0, hpre⟩ := hdp _ _ hst
+        have hsound : EntrySound rep c p.attr := by
+          obtain ⟨c', hc', hs'⟩ := hs.pending p hp
+          rw [h0] at hc'; cases hc'
+          exact hs'.of_prefix hpre
         simp [hp, hst] at he
         exact carried c p.attr hsound he
       | none =>
@@ -265,7 +313,7 @@ theorem map_target_sound (sp : Spec) (c : List Nat) :
 theorem sound_of_inv2 (sp : Spec) (h : Inv2 sp) :
     Sound (fun s y => sp.g y = some s) (sysStore sp.st) (sysLog sp.st) := by
   constructor
-  · intro le hle c hc
+  · intro le hle
     obtain ⟨e, he, hattr, href, hidx⟩ := sysEntries_getLast? 0 sp.st.entries le hle
     have hl := h.latest
     rw [he] at hl
@@ -273,20 +321,16 @@ theorem sound_of_inv2 (sp : Spec) (h : Inv2 sp) :
       cases hw : sp.st.entries with
       | nil => rw [hw] at he; cases he
       | cons _ _ => simp
-    have : c = e.snap := by
-      have href' : (le.ref : Nat) = 0 + sp.st.entries.length := href
-      have e1 : (le.ref : Nat) = (sp.st.entries.length - 1) + 1 := by omega
-      simp only [sysStore, e1, hidx, Option.map_some, Option.some.injEq] at hc
-      exact hc.symm
-    rw [this, hattr, hl.1]
+    have e1 : le.ref = (sp.st.entries.length - 1) + 1 := by omega
+    refine ⟨e.snap, by simp only [sysStore, e1, hidx, Option.map_some], ?_⟩
+    rw [hattr, hl.1]
     exact map_target_sound sp e.snap
-  · intro p hp c hc
+  · intro p hp
     simp only [sysLog] at hp
     split at hp
     · rename_i hcond
       cases hp
-      simp only [sysStore, Option.some.injEq] at hc
-      subst hc
+      refine ⟨sp.st.initSnap, rfl, ?_⟩
       simp only [Bool.and_eq_true, Bool.not_eq_true', List.isEmpty_iff] at hcond
       obtain ⟨hemp, hne⟩ := hcond
       have hl := h.latest
